@@ -614,13 +614,19 @@ def run_wrap(task):
     n = 0
     head = b"diff --git a/f.txt b/f.txt\n--- a/f.txt\n+++ b/f.txt\n@@ -1,2 +1,2 @@\n"
     for w in widths:
-        for ln in (False, True):
+        for ln in (False, True, "wide-symbols"):
             o = dict(BASE)
             o.update({"width": str(w), "side-by-side": True, "wrap-max-lines": wrap_max,
                       "syntax-theme": "Monokai Extended"})
-            if ln:
+            if ln is True:
                 o["line-numbers-left-format"] = ""
                 o["line-numbers-right-format"] = "|"
+            if ln == "wide-symbols":
+                # a wrap symbol counts as one column for delta's option check when it is one cluster: a double-width one
+                # leaves less room than the wrapping code assumes
+                o["wrap-left-symbol"] = "\u6f22"
+                o["wrap-right-symbol"] = "\u6f22"
+                o["wrap-right-prefix-symbol"] = "\u6f22"
             args = build_args(o)
             try:
                 cid = drv.mkconfig(args)
@@ -646,6 +652,9 @@ def run_wrap(task):
                     inputs.append(head + b"-" + pad + a + b" tail of the line\n+" + pad + b + b" tail of the line\n")
                     inputs.append(head + b" " + pad + b' "' + a + b'tail of the line",\n-q\n')
                     inputs.append(head.replace(b"f.txt", b"f.json") + b' {\n   "' + pad + b'": "' + a + b' and more words here",\n-  "c": 1\n+  "c": 2\n')
+                # the same clusters at the very start of a line
+                inputs.append(head + b"-" + a + b"a" * (w + 3) + b"\n+" + b + b"b" * (w + 7) + b"\n")
+                inputs.append(head + b" " + a + b"a" * (w + 3) + b"\n+q\n")
             for i in range(0, len(inputs), 256):
                 if time.time() > deadline:
                     break
@@ -782,6 +791,17 @@ def main(tier):
     res_o = explore.pmap(run_optvals, otasks)
     lt["option_value_layer"] = round(time.time() - t1, 1)
     res_p = explore.pmap(run_pager_values, [(PAGER_VALUES[i::5],) for i in range(5)])
+    # --parse-ansi reads standard input too: the whole hostile alphabet in one stream
+    pa_viol = []
+    try:
+        st, out, err = run_cli(["--no-gitconfig", "--parse-ansi"], b"".join(l + b"\n" for l in HOSTILE), timeout=30.0)
+    except Exception as e:
+        st, out, err = -9, b"", str(e).encode()
+    if st != 0:
+        v = Violation("crash:parse-ansi:" + (explore.crash_site(err.decode("utf-8", "replace")) if b"panicked" in err else "status%d" % st),
+                      "--parse-ansi over the hostile alphabet: status %d: %s" % (st, err[-300:].decode("utf-8", "replace")), [])
+        v.args = ["--no-gitconfig", "--parse-ansi"]
+        pa_viol.append(v)
     t1 = time.time()
     sharded = []
     for t in hostile:
@@ -821,7 +841,8 @@ def main(tier):
     nwrap = sum(r["n"] for r in res_w)
     for r in res_w:
         viols.extend(r["violations"])
-    npager = sum(r["n"] for r in res_p)
+    npager = sum(r["n"] for r in res_p) + 1
+    viols.extend(pa_viol)
     for r in res_p:
         viols.extend(r["violations"])
     nbytes = 0
@@ -841,7 +862,7 @@ def main(tier):
         viols.extend(r["violations"])
     if any(r["capped"] for r in res_o):
         caps.append("option-value layer: time cap")
-    if not nopt_conf:
+    if not nopt_conf and not viols:
         raise MachineryError("option-value layer: no configuration was accepted")
     best = {}
     for v in viols:
